@@ -124,10 +124,44 @@ func boundedSearchQuery(repo string) ([]boundedResult, error) {
 	return res, nil
 }
 
-// a term of the WHERE clause: column IN (values) / column = value, possibly several joined by OR inside parentheses
-type sqlTerm struct {
+// a node of the WHERE clause: and / or over kids, or a leaf "column is one of vals" (column IN (values) / column = value)
+type sqlNode struct {
+	op   string // "and", "or", "" (leaf)
+	kids []*sqlNode
 	col  string
 	vals []string // resolved values
+}
+
+func (n *sqlNode) eval(id, g, s string) bool {
+	switch n.op {
+	case "and":
+		for _, k := range n.kids {
+			if !k.eval(id, g, s) {
+				return false
+			}
+		}
+		return true
+	case "or":
+		for _, k := range n.kids {
+			if k.eval(id, g, s) {
+				return true
+			}
+		}
+		return false
+	}
+	v := s
+	switch n.col {
+	case "id":
+		v = id
+	case "group_id":
+		v = g
+	}
+	for _, x := range n.vals {
+		if x == v {
+			return true
+		}
+	}
+	return false
 }
 
 var (
@@ -171,45 +205,56 @@ func checkSearchCase(c searchCase) (bool, string) {
 		return false, "query is not `SELECT <the eight listed columns> FROM plans WHERE ... ORDER BY submit_time DESC`: " + c.Q
 	}
 	where := strings.TrimSpace(m[1])
+	// the WHERE clause is read with SQL's precedence (AND binds tighter than OR, parentheses group):
+	//   expr := conj { OR conj } ; conj := atom { AND atom } ; atom := ( expr ) | id|group_id IN (?,..) | state_status = $p
+	// positional arguments are consumed in textual order
 	argPos := 0
-	var terms []sqlTerm
-	for _, t := range splitTop(where, andSpl) {
+	var perr string
+	var parseExpr func(t string) *sqlNode
+	parseAtom := func(t string) *sqlNode {
 		t = strings.TrimSpace(t)
-		// one level of parentheses around a disjunction
-		inner := t
-		if strings.HasPrefix(t, "(") && strings.HasSuffix(t, ")") {
-			inner = strings.TrimSpace(t[1 : len(t)-1])
-		}
 		if im := inRe.FindStringSubmatch(t); im != nil {
 			n := strings.Count(im[2], "?")
 			if argPos+n > len(c.Args) {
-				return false, fmt.Sprintf("%d placeholders but only %d positional arguments: %s", argPos+n, len(c.Args), c.Q)
+				perr = fmt.Sprintf("%d placeholders but only %d positional arguments: %s", argPos+n, len(c.Args), c.Q)
+				return nil
 			}
-			terms = append(terms, sqlTerm{col: strings.ToLower(im[1]), vals: c.Args[argPos : argPos+n]})
+			nd := &sqlNode{col: strings.ToLower(im[1]), vals: c.Args[argPos : argPos+n]}
 			argPos += n
-			continue
+			return nd
 		}
-		var vals []string
-		okTerm := true
-		for _, d := range splitTop(inner, orSplit) {
-			em := eqRe.FindStringSubmatch(strings.TrimSpace(d))
-			if em == nil {
-				okTerm = false
-				break
-			}
+		if em := eqRe.FindStringSubmatch(t); em != nil {
 			v, bound := c.Named[em[1]]
 			if !bound {
-				return false, fmt.Sprintf("parameter %s is not bound: %s", em[1], c.Q)
+				perr = fmt.Sprintf("parameter %s is not bound: %s", em[1], c.Q)
+				return nil
 			}
-			vals = append(vals, v)
+			return &sqlNode{col: "state_status", vals: []string{v}}
 		}
-		if !okTerm {
-			return false, fmt.Sprintf("WHERE term %q is outside the SQL subset (col IN (?,..) | state_status = $p [OR ...]): %s", t, c.Q)
+		if strings.HasPrefix(t, "(") && strings.HasSuffix(t, ")") && len(splitTop(t, orSplit)) == 1 && len(splitTop(t, andSpl)) == 1 {
+			return parseExpr(t[1 : len(t)-1])
 		}
-		if inner == t && len(vals) > 1 {
-			return false, fmt.Sprintf("a disjunction of statuses must be parenthesised (AND binds tighter than OR): %s", c.Q)
+		perr = fmt.Sprintf("WHERE term %q is outside the SQL subset (col IN (?,..) | state_status = $p | AND | OR | parentheses): %s", t, c.Q)
+		return nil
+	}
+	parseExpr = func(t string) *sqlNode {
+		or := &sqlNode{op: "or"}
+		for _, d := range splitTop(strings.TrimSpace(t), orSplit) {
+			and := &sqlNode{op: "and"}
+			for _, a := range splitTop(strings.TrimSpace(d), andSpl) {
+				nd := parseAtom(a)
+				if nd == nil {
+					return nil
+				}
+				and.kids = append(and.kids, nd)
+			}
+			or.kids = append(or.kids, and)
 		}
-		terms = append(terms, sqlTerm{col: "state_status", vals: vals})
+		return or
+	}
+	root := parseExpr(where)
+	if root == nil {
+		return false, perr
 	}
 	if argPos != len(c.Args) {
 		return false, fmt.Sprintf("%d positional arguments but %d placeholders: %s", len(c.Args), argPos, c.Q)
@@ -233,21 +278,7 @@ func checkSearchCase(c searchCase) (bool, string) {
 		for _, g := range gids {
 			for _, s := range sts {
 				want := (c.NI == 0 || in(id, ids[:c.NI])) && (c.NG == 0 || in(g, gids[:c.NG])) && (c.NS == 0 || in(s, c.Statuses))
-				got := true
-				for _, t := range terms {
-					var v string
-					switch t.col {
-					case "id":
-						v = id
-					case "group_id":
-						v = g
-					default:
-						v = s
-					}
-					if !in(v, t.vals) {
-						got = false
-					}
-				}
+				got := root.eval(id, g, s)
 				if got != want {
 					return false, fmt.Sprintf("a plan with id=%s group=%s status=%s: the statement says %v, the query says %v: %s", id[len(id)-2:], g[len(g)-2:], s, want, got, c.Q)
 				}
